@@ -290,19 +290,6 @@ type c08Case struct {
 	extra  []*c08Spk
 }
 
-// c08BlockConn parks whoever closes it until the gate opens: offered as a surplus accepted
-// connection it holds the FSM goroutine inside opensent()'s `case conn := <-fsm.connCh` branch, so
-// that the peer's OPEN and the outgoing connection's result are both pending at the next select.
-type c08BlockConn struct {
-	*simConn
-	gate chan struct{}
-}
-
-func (b *c08BlockConn) Close() error {
-	<-b.gate
-	return b.simConn.Close()
-}
-
 func (cs *c08Case) logf(f string, a ...any) {
 	cs.log = append(cs.log, fmt.Sprintf("%s ", time.Now().Format("15:04:05.000"))+fmt.Sprintf(f, a...))
 	if simDebug {
@@ -585,13 +572,14 @@ func (cs *c08Case) connectActive(oOut, oIn *c08Open) (*c08Hs, *c08Open, error) {
 	}
 	checkOpen(sentIn, oIn, "accepted")
 	cs.logf("collision: OPEN on the accepted connection %s", oIn)
-	var gate chan struct{}
+	var blocker *simBlockConn
 	if cs.mode == "collision" {
 		// park the FSM goroutine, deliver both OPENs, let it go: both events are pending and
 		// opensent() takes either branch
-		gB, mineB := simPipe(simLocalAddr, c08Addr, 40002)
-		gate = make(chan struct{})
-		cs.n.acceptCh <- &c08BlockConn{simConn: gB.(*simConn), gate: gate}
+		// (a surplus accepted connection whose Close() blocks: sim_collision_test.go)
+		var mineB net.Conn
+		blocker, mineB = simNewBlockConn(simLocalAddr, c08Addr, 40002)
+		cs.n.acceptCh <- blocker
 		defer mineB.Close()
 		synctest.Wait()
 		in.writeAsync(oIn.bytes())
@@ -599,8 +587,8 @@ func (cs *c08Case) connectActive(oOut, oIn *c08Open) (*c08Hs, *c08Open, error) {
 	out.writeAsync(oOut.bytes())
 	synctest.Wait()
 	at := time.Now()
-	if gate != nil {
-		close(gate)
+	if blocker != nil {
+		blocker.Release()
 	}
 	in.startReader()
 	out.startReader()
